@@ -24,11 +24,11 @@ META = {
                   "translation correctness, Globster/ExceptionGlobster for every batch size; textual tie of the "
                   "translators (model text == real _sub_* output) + behavioural tie against real Globster/re"),
     "level_text": ("Proved for all token lists of the glob grammar (literal, backslash escape, *, ?, **/, character "
-                   "class with negation and ranges) and all names without newline: the regex the translators emit, "
-                   "behind the kind's prefix and before '$', matches exactly the names the documented semantics "
+                   "class with negation and ranges) and all names (newlines included): the regex the translators emit, "
+                   "behind the kind's prefix and before '\\Z', matches exactly the names the documented semantics "
                    "selects; Globster.match returns a matching pattern iff one exists, for every batch size k>0 (so 99 "
                    "vs more cannot matter); '!'/'!!' precedence of ExceptionGlobster; _OrderedGlobster returns the first "
-                   "match. The names-with-newline case is refuted in Coq (candidate finding C48-newline). Partial: RE: "
+                   "match. (Findings C48-newline and C48-re-global-flag are repaired; their witnesses are regression inputs.) Partial: RE: "
                    "patterns and POSIX named classes ([:digit:]) have no Coq semantics (correspondence/oracle only)."),
     "level_note": ("Trusted: Coq kernel, vm_compute; that Python's re parses the printed regex back to the model's AST "
                    "and implements its semantics (validated on every case: real Globster vs the verified matcher); the "
@@ -407,14 +407,17 @@ def big_list(rng, n, kind):
 
 def corpus():
     out = []
-    # candidate finding C48-newline: '.' does not match \n, '$' matches before a final \n
+    # repaired finding C48-newline (37b5ed8): regression inputs, must pass
     out.append({"kind": "match", "mode": "plain", "pats": ["*"], "names": ["x\ny"]})
     out.append({"kind": "match", "mode": "plain", "pats": ["foo"], "names": ["foo\n"]})
     out.append({"kind": "match", "mode": "plain", "pats": ["*.py"], "names": ["foo\nbar.py", "a.py\n"]})
     out.append({"kind": "match", "mode": "plain", "pats": ["a/b"], "names": ["a/b\n"]})
-    # candidate finding C48-re-global-flag: the documented example RE:(?i)foo is rejected by Python >= 3.11
+    # repaired finding C48-re-global-flag (2d454d4): regression inputs, must pass
     out.append({"kind": "match", "mode": "plain", "pats": ["RE:(?i)foo"], "names": ["FOO", "foo", "bar"]})
     out.append({"kind": "match", "mode": "plain", "pats": ["RE:(?i:foo)", "*.c"], "names": ["FOO", "foo", "bar", "a.c"]})
+    out.append({"kind": "match", "mode": "plain", "pats": ["*.c", "RE:(?i)foo", "bar"], "names": ["x/FoO", "BAR", "bar", "A.C"]})
+    out.append({"kind": "match", "mode": "exc", "pats": ["?", "**/x", "!*.o", "a/**/b", "[!a]x"],
+                "names": ["\n", "a\nb/x", "a\n.o", "a/\n/b", "\nx", "b\n/x", "d\n/a.o", "a/b\n"]})
     # reported group is A matching alternative, not necessarily the first one in list order (extension prefix)
     out.append({"kind": "match", "mode": "plain", "pats": ["*.b.c", "*.c"], "names": ["a.b.c"]})
     out.append({"kind": "match", "mode": "plain", "pats": ["*.c", "*.b.c"], "names": ["a.b.c"]})
@@ -700,9 +703,11 @@ def _re_reference(p, name):
     against the whole path' (RE:) / the POSIX class; use Python re on the single pattern."""
     import re
     from breezy import globbing
+    if p.startswith("RE:"):
+        return re.fullmatch(p[3:], name) is not None      # independent of _sub_re
     k = globbing.Globster.identify(p)
     tr, pre = _translator(k)
-    return re.match(f"{pre}(?:({tr(p)}))$", name) is not None
+    return re.match(f"{pre}(?:({tr(p)}))\\Z", name) is not None
 
 
 def _matches(p, name):
@@ -769,12 +774,7 @@ def oracle(inp, obs):
 
 
 def finding_matches(fid, inp, obs, why):
-    if fid == "C48-newline":
-        return inp.get("kind") in ("match", "raw") and any("\n" in n for n in inp["names"])
-    if fid == "C48-re-global-flag":
-        import re
-        return inp.get("kind") == "match" and any(re.search(r"\(\?[aiLmsux]+\)", p) for p in inp["pats"])
-    return False
+    return False        # C48-newline and C48-re-global-flag are repaired: nothing is excused
 
 
 def nontrivial(inp, obs):
